@@ -31,7 +31,17 @@ impl Property for C18 {
     fn id(&self) -> &'static str {
         "C18"
     }
-    fn generate(&self, rng: &mut Rng, _index: u64, _tier: &str) -> Case {
+    fn generate(&self, rng: &mut Rng, index: u64, tier: &str) -> Case {
+        // the first case numbers are the systematic sweep: a valid reply truncated at every byte
+        let replies = if tier == "quick" { 2 } else { 12 };
+        let mut base = 0u64;
+        for no in 0..replies {
+            let len = hostcase::sweep_len(no) as u64;
+            if index < base + len {
+                return Case::single(hostcase::truncation_case(no, (index - base) as usize, rng));
+            }
+            base += len;
+        }
         Case::single(hostcase::generate_c18(rng))
     }
     fn evaluate(&self, exec: &Executor, case: &Case) -> Result<Outcome, String> {
